@@ -52,6 +52,13 @@ type emitter struct {
 	// jump.
 	breakLabel *label
 
+	// breakStmt and loopStmt are the innermost breakable statement and the
+	// innermost loop that are currently being emitted, and labeled maps the
+	// name of a label to its statement. They are used to reject the 'break'
+	// and 'continue' statements with a label that refers to an outer statement.
+	breakStmt, loopStmt ast.Node
+	labeled             map[string]ast.Node
+
 	// inURL indicates if the emitter is currently inside an *ast.URL node.
 	inURL bool
 
@@ -91,6 +98,7 @@ type emitter struct {
 func newEmitter(typeInfos map[ast.Node]*typeInfo, formatTypes map[ast.Format]reflect.Type, indirectVars map[*ast.Identifier]bool) *emitter {
 	em := &emitter{
 		labels:                         make(map[*runtime.Function]map[string]label),
+		labeled:                        map[string]ast.Node{},
 		typeInfos:                      typeInfos,
 		formatTypes:                    formatTypes,
 		types:                          types.NewTypes(), // TODO: this is wrong: the instance should be taken from the type checker.
